@@ -509,6 +509,8 @@ type C20MOp struct {
 	Client int    `json:"client"`
 	Kind   string `json:"kind"` // tcp | udp
 	Auth   bool   `json:"auth"`
+	Key    string `json:"key,omitempty"`  // access key id ("" = "key"); ids are often small decimal numbers
+	Hold   bool   `json:"hold,omitempty"` // the tunnel stays open until the end of the history (lifetimes overlap)
 }
 
 type C20Multi struct {
@@ -523,7 +525,21 @@ func genC20Multi(t *rapid.T) C20Multi {
 	c := C20Multi{Clients: rapid.SliceOfNDistinct(rapid.SampledFrom(c20MultiPool), 2, 5, rapid.ID[string]).Draw(t, "clients")}
 	n := rapid.IntRange(2, 16).Draw(t, "nops")
 	for i := 0; i < n; i++ {
-		c.Ops = append(c.Ops, C20MOp{Client: rapid.IntRange(0, len(c.Clients)-1).Draw(t, "client"), Kind: rapid.SampledFrom([]string{"tcp", "tcp", "udp"}).Draw(t, "kind"), Auth: rapid.Bool().Draw(t, "auth")})
+		c.Ops = append(c.Ops, C20MOp{Client: rapid.IntRange(0, len(c.Clients)-1).Draw(t, "client"), Kind: rapid.SampledFrom([]string{"tcp", "tcp", "udp"}).Draw(t, "kind"), Auth: rapid.Bool().Draw(t, "auth"),
+			Key: rapid.SampledFrom([]string{"", "", "1", "2", "3", "12", "23"}).Draw(t, "key"), Hold: rapid.Bool().Draw(t, "hold")})
+	}
+	if rapid.IntRange(0, 2).Draw(t, "ambiguous") == 0 {
+		// two clients whose (address, key id) pairs read the same when written one after the other:
+		// 20.0.0.<d> with key <e><r> and 20.0.0.<d><e> with key <r>; both hold their tunnels
+		d, e := rapid.IntRange(1, 24).Draw(t, "d"), rapid.IntRange(0, 9).Draw(t, "e")
+		r := rapid.SampledFrom([]string{"3", "7", "42", "0"}).Draw(t, "r")
+		base := rapid.SampledFrom([]string{"20.0.0.", "93.184.216.", "2001:4860::"}).Draw(t, "base")
+		c.Clients = append(c.Clients, fmt.Sprintf("%s%d", base, d), fmt.Sprintf("%s%d%d", base, d, e))
+		kind := rapid.SampledFrom([]string{"tcp", "udp"}).Draw(t, "ambKind")
+		a := C20MOp{Client: len(c.Clients) - 2, Kind: kind, Auth: true, Key: fmt.Sprintf("%d%s", e, r), Hold: true}
+		b := C20MOp{Client: len(c.Clients) - 1, Kind: kind, Auth: true, Key: r, Hold: true}
+		at := rapid.IntRange(0, len(c.Ops)).Draw(t, "at")
+		c.Ops = append(c.Ops[:at:at], append([]C20MOp{a, b}, c.Ops[at:]...)...)
 	}
 	return c
 }
@@ -554,7 +570,12 @@ func runC20Multi(c C20Multi, info *kit.Info) *kit.Finding {
 	}
 	wantOpened, wantPkts, wantTunnel := map[string]float64{}, map[string]float64{}, map[string]bool{}
 	v6global := map[string]bool{}
+	var atEnd []func()
 	for i, op := range c.Ops {
+		keyID := op.Key
+		if keyID == "" {
+			keyID = "key"
+		}
 		ipStr := c.Clients[op.Client]
 		ip := net.ParseIP(ipStr)
 		l := label(ipStr)
@@ -568,17 +589,28 @@ func runC20Multi(c C20Multi, info *kit.Info) *kit.Finding {
 			cm := sm.AddOpenTCPConnection(conn)
 			wantOpened[l]++
 			if op.Auth {
-				cm.AddAuthenticated("key")
+				cm.AddAuthenticated(keyID)
 				wantTunnel[l] = true
 			}
-			cm.AddClosed("OK", metrics.ProxyMetrics{ClientProxy: 10, ProxyClient: 10}, time.Millisecond)
+			if op.Hold {
+				atEnd = append(atEnd, func() { cm.AddClosed("OK", metrics.ProxyMetrics{ClientProxy: 10, ProxyClient: 10}, time.Millisecond) })
+			} else {
+				cm.AddClosed("OK", metrics.ProxyMetrics{ClientProxy: 10, ProxyClient: 10}, time.Millisecond)
+			}
 		case "udp":
-			um := sm.AddUDPNatEntry(&net.UDPAddr{IP: ip, Port: 50000 + i}, "key")
+			um := sm.AddUDPNatEntry(&net.UDPAddr{IP: ip, Port: 50000 + i}, keyID)
 			um.AddPacketFromClient("OK", 20, 10)
 			wantPkts[l]++
 			wantTunnel[l] = true
-			um.RemoveNatEntry()
+			if op.Hold {
+				atEnd = append(atEnd, um.RemoveNatEntry)
+			} else {
+				um.RemoveNatEntry()
+			}
 		}
+	}
+	for _, f := range atEnd {
+		f()
 	}
 	mfs, err := reg.Gather()
 	if err != nil {
